@@ -307,6 +307,53 @@ class SymStr(Sym):
     __hash__ = Sym.__hash__
 
 
+def _sym_split(self, sep=None, maxsplit=-1, right=False):
+    """split / rsplit of a symbolic string on a one-character separator (case analysis on the number of separators)"""
+    e = cur()
+    if not isinstance(sep, str) or len(sep) != 1:
+        raise Unsupported("split of a symbolic string on a non-literal separator")
+    st = self.term
+    sp = z3.StringVal(sep)
+    if not e.truth(wrap(z3.Contains(st, sp))):
+        return [self]
+    a = e.fresh("spl_a", z3.StringSort())
+    b = e.fresh("spl_b", z3.StringSort())
+    if maxsplit == 1:
+        if right:
+            e.assume(z3.And(st == z3.Concat(a, sp, b), z3.Not(z3.Contains(b, sp))), why="str.rsplit(sep, 1)")
+        else:
+            e.assume(z3.And(st == z3.Concat(a, sp, b), z3.Not(z3.Contains(a, sp))), why="str.split(sep, 1)")
+        return [wrap(a), wrap(b)]
+    if maxsplit != -1:
+        raise Unsupported("split with maxsplit > 1")
+    e.assume(z3.And(st == z3.Concat(a, sp, b), z3.Not(z3.Contains(a, sp))), why="str.split(sep): first field")
+    if not e.truth(wrap(z3.Contains(b, sp))):
+        return [wrap(a), wrap(b)]
+    c = e.fresh("spl_c", z3.StringSort())
+    d = e.fresh("spl_d", z3.StringSort())
+    e.assume(z3.And(b == z3.Concat(c, sp, d), z3.Not(z3.Contains(c, sp))), why="str.split(sep): second field")
+    # three or more fields: the tail is kept as one opaque field (only the count >= 3 matters)
+    return [wrap(a), wrap(c), wrap(d)]
+
+
+_LOWER = z3.Function("str_lower", z3.StringSort(), z3.StringSort())
+
+
+def _sym_lower(self):
+    e = cur()
+    r = _LOWER(self.term)
+    e.assume(_LOWER(r) == r, why="str.lower is idempotent")
+    return wrap(r)
+
+
+SymStr.pyvc_attr_split = lambda self: (lambda sep=None, maxsplit=-1: _sym_split(self, sep, maxsplit, False))
+SymStr.pyvc_attr_rsplit = lambda self: (lambda sep=None, maxsplit=-1: _sym_split(self, sep, maxsplit, True))
+SymStr.pyvc_attr_lower = lambda self: (lambda: _sym_lower(self))
+SymStr.pyvc_attr_split = property(SymStr.pyvc_attr_split)
+SymStr.pyvc_attr_rsplit = property(SymStr.pyvc_attr_rsplit)
+SymStr.pyvc_attr_lower = property(SymStr.pyvc_attr_lower)
+
+
 class SymOther(Sym):
     """A term of another sort (enum datatype etc.)."""
     __slots__ = ()
